@@ -77,6 +77,7 @@ structure SubOk (s : Sub) : Prop where
   clonesAcc : s.clones > 0 → s.phase = .accepted
   unsubAcc : s.unsubscribed = true → s.phase = .accepted
   closeAcc : s.closeSent = true → s.phase = .accepted
+  orphAcc : s.orphaned = true → s.phase = .accepted
 
 /-- subscriptions of connection `c` that hold one of its permits -/
 def held (st : State) (c : Nat) : Nat := st.subs.countP (fun s => s.conn == c && s.holds)
@@ -189,6 +190,26 @@ theorem lookup_mem {st : State} {k : Nat} {s : Sub} {cn : Conn} (h : lookup st k
 
 /-! ### every operation preserves the invariant -/
 
+theorem SubOk.notAcc {s : Sub} (ok : SubOk s) (h : s.phase ≠ .accepted) :
+    s.clones = 0 ∧ s.inTable = false ∧ s.unsubscribed = false ∧ s.closeSent = false ∧
+      s.orphaned = false := by
+  refine ⟨?_, ?_, ?_, ?_, ?_⟩
+  · rcases Nat.eq_zero_or_pos s.clones with h0 | h0
+    · exact h0
+    · exact absurd (ok.clonesAcc h0) h
+  · cases hi : s.inTable with
+    | false => rfl
+    | true => exact absurd (ok.table.mp hi).1 h
+  · cases hu : s.unsubscribed with
+    | false => rfl
+    | true => exact absurd (ok.unsubAcc hu) h
+  · cases hu : s.closeSent with
+    | false => rfl
+    | true => exact absurd (ok.closeAcc hu) h
+  · cases hu : s.orphaned with
+    | false => rfl
+    | true => exact absurd (ok.orphAcc hu) h
+
 theorem inv_accept {st : State} (h : Inv st) (k : Nat) : Inv (doAccept st k).1 := by
   unfold doAccept
   split
@@ -199,31 +220,333 @@ theorem inv_accept {st : State} (h : Inv st) (k : Nat) : Inv (doAccept st k).1 :
     · exact h
     · rename_i hph
       have hph : s.phase = .pending := by simpa using hph
-      have hc0 : s.clones = 0 := by
-        rcases Nat.eq_zero_or_pos s.clones with h0 | h0
-        · exact h0
-        · have := ok.clonesAcc h0; simp [hph] at this
+      obtain ⟨f1, f2, f3, f4, f5⟩ := ok.notAcc (by simp [hph])
       split
       · refine inv_put h hl rfl rfl ?_ ?_ ?_
         · constructor <;> simp_all
-          · intro hu; have := ok.unsubAcc hu; simp [hph] at this
-          · intro hu; have := ok.closeAcc hu; simp [hph] at this
         · rfl
-        · simp [Conn.release, Sub.holds, hph, hc0]
+        · simp [Conn.release, Sub.holds, hph, f1]
       · split
         · exact h
         · refine inv_put h hl rfl rfl ?_ ?_ ?_
-          · have hu : s.unsubscribed = false := by
-              cases hu : s.unsubscribed with
-              | false => rfl
-              | true => have := ok.unsubAcc hu; simp [hph] at this
-            have ho : s.inTable = false := by
-              cases hi : s.inTable with
-              | false => rfl
-              | true => have := ok.table.mp hi; simp [hph] at this
+          · have := ok.table
             constructor <;> simp_all
-            sorry
           · rfl
           · simp [Conn.push, Sub.holds, hph]
+
+theorem inv_refuse {st : State} (h : Inv st) (k : Nat) (code : Int) (ph : Phase) (hph' : ph ≠ .accepted)
+    (hpp : ph ≠ .pending) : Inv (doRefuse st k code ph).1 := by
+  unfold doRefuse
+  split
+  · exact h
+  · rename_i s cn hl
+    have ok := h.subOk s (lookup_mem hl)
+    split
+    · exact h
+    · rename_i hph
+      have hph : s.phase = .pending := by simpa using hph
+      obtain ⟨f1, f2, f3, f4, f5⟩ := ok.notAcc (by simp [hph])
+      split
+      · exact h
+      · refine inv_put h hl rfl rfl ?_ ?_ ?_
+        · constructor <;> simp_all
+        · split <;> rfl
+        · have : (ph == Phase.pending) = false := by simpa using hpp
+          split <;> simp [Conn.release, Conn.push, Sub.holds, hph, f1, this]
+
+theorem inv_send {st : State} (h : Inv st) (k p : Nat) : Inv (doSend st k p).1 := by
+  unfold doSend
+  split
+  · exact h
+  · rename_i s cn hl
+    have ok := h.subOk s (lookup_mem hl)
+    split
+    · exact h
+    · split
+      · exact h
+      · split
+        · exact h
+        · refine inv_put h hl rfl rfl ?_ rfl ?_
+          · exact ⟨ok.table, ok.clonesAcc, ok.unsubAcc, ok.closeAcc, ok.orphAcc⟩
+          · simp [Conn.push, Sub.holds]
+
+theorem inv_clone {st : State} (h : Inv st) (k : Nat) : Inv (doClone st k).1 := by
+  unfold doClone
+  split
+  · exact h
+  · rename_i s cn hl
+    have ok := h.subOk s (lookup_mem hl)
+    split
+    · exact h
+    · rename_i hc
+      have hc : s.clones > 0 := by
+        have : ¬ s.clones = 0 := by simpa using hc
+        omega
+      refine inv_put h hl rfl rfl ?_ rfl ?_
+      · have := ok.table
+        have := ok.clonesAcc hc
+        refine ⟨?_, fun _ => this, ok.unsubAcc, ok.closeAcc, ok.orphAcc⟩
+        simp_all
+      · have : s.clones + 1 > 0 := by omega
+        simp [Sub.holds, hc, this]
+
+/-- the only fact about the F-13 switch the invariant proofs use: the drop of the LAST handle
+removes the entry (true of the current and of the fixed code) -/
+theorem dropSink_last : dropSinkRemovesEntry 1 = true := rfl
+
+theorem inv_dropSink {st : State} (h : Inv st) (k : Nat) : Inv (doDropSink st k).1 := by
+  unfold doDropSink
+  split
+  · exact h
+  · rename_i s cn hl
+    have ok := h.subOk s (lookup_mem hl)
+    split
+    · exact h
+    · rename_i hc
+      have hc : s.clones > 0 := by
+        have : ¬ s.clones = 0 := by simpa using hc
+        omega
+      have hacc := ok.clonesAcc hc
+      refine inv_put h hl rfl rfl ?_ ?_ ?_
+      · have ht := ok.table
+        refine ⟨?_, fun _ => hacc, ok.unsubAcc, ok.closeAcc, fun _ => hacc⟩
+        simp only []
+        cases hi : s.inTable <;> cases hr : dropSinkRemovesEntry s.clones <;> simp_all
+        · have : s.clones ≠ 1 := fun e => by rw [e, dropSink_last] at hr; cases hr
+          omega
+        · omega
+      · split <;> rfl
+      · split
+        · rename_i h1
+          have h1 : s.clones = 1 := by simpa using h1
+          simp [Conn.release, Sub.holds, h1, hacc]
+        · rename_i h1
+          have h1 : ¬ s.clones = 1 := by simpa using h1
+          have : s.clones - 1 > 0 := by omega
+          simp [Sub.holds, hc, this]
+
+theorem inv_return {st : State} (h : Inv st) (k : Nat) (r : Ret) : Inv (doReturn st k r).1 := by
+  unfold doReturn
+  split
+  · exact h
+  · rename_i s cn hl
+    have ok := h.subOk s (lookup_mem hl)
+    split
+    · exact h
+    · refine inv_put h hl rfl rfl ?_ rfl ?_
+      · exact ⟨ok.table, ok.clonesAcc, ok.unsubAcc, ok.closeAcc, ok.orphAcc⟩
+      · simp [Sub.holds]
+
+theorem inv_task {st : State} (h : Inv st) (k : Nat) : Inv (doTask st k).1 := by
+  unfold doTask
+  split
+  · exact h
+  · rename_i s cn hl
+    have ok := h.subOk s (lookup_mem hl)
+    split
+    · exact h
+    · rename_i hg
+      have hacc : s.phase = .accepted := by
+        simp at hg; exact hg.1.1
+      split
+      · refine inv_put h hl rfl rfl ?_ rfl ?_
+        · exact ⟨ok.table, ok.clonesAcc, ok.unsubAcc, ok.closeAcc, ok.orphAcc⟩
+        · simp [Sub.holds]
+      · split
+        · refine inv_put h hl rfl rfl ?_ rfl ?_
+          · exact ⟨ok.table, ok.clonesAcc, ok.unsubAcc, ok.closeAcc, ok.orphAcc⟩
+          · simp [Sub.holds]
+        · split
+          · exact h
+          · refine inv_put h hl rfl rfl ?_ rfl ?_
+            · exact ⟨ok.table, ok.clonesAcc, ok.unsubAcc, fun _ => hacc, ok.orphAcc⟩
+            · simp [Sub.holds, Conn.push]
+
+theorem inv_connClose {st : State} (h : Inv st) (c : Nat) : Inv (doConnClose st c).1 := by
+  unfold doConnClose
+  split
+  · exact h
+  · rename_i cn hc
+    exact inv_putConn h hc rfl rfl
+
+theorem inv_connFinish {st : State} (h : Inv st) (c : Nat) : Inv (doConnFinish st c).1 := by
+  unfold doConnFinish
+  split
+  · exact h
+  · rename_i cn hc
+    split
+    · exact inv_putConn h hc rfl rfl
+    · exact h
+
+theorem inv_writer {st : State} (h : Inv st) (c : Nat) : Inv (doWriter st c).1 := by
+  unfold doWriter
+  split
+  · exact h
+  · rename_i cn hc
+    split
+    · exact h
+    · split
+      · exact h
+      · exact inv_putConn h hc rfl rfl
+
+theorem inv_stop {st : State} (h : Inv st) : Inv (doStop st).1 := by
+  refine ⟨?_, h.idLt, h.idUniq, h.subOk, ?_⟩
+  · intro x hx
+    simp only [doStop, List.length_map]
+    exact h.connOk x hx
+  · intro c cn hc
+    simp only [doStop, List.getElem?_map] at hc
+    cases hcc : st.conns[c]? with
+    | none => simp [hcc] at hc
+    | some cn0 =>
+      simp [hcc] at hc
+      subst hc
+      have := h.permit c cn0 hcc
+      simpa [held, doStop] using this
+
+theorem inv_subscribe {st : State} (h : Inv st) (c m rid : Nat) : Inv (doSubscribe st c m rid).1 := by
+  unfold doSubscribe
+  split
+  · exact h
+  · rename_i cn hc
+    have hlen : c < st.conns.length := by
+      rcases List.getElem?_eq_some_iff.mp hc with ⟨hh, _⟩; exact hh
+    split
+    · exact h
+    · split
+      · split
+        · exact inv_putConn h hc rfl rfl
+        · exact h
+      · rename_i hpf
+        have hpf : cn.permitsFree ≠ 0 := by simpa using hpf
+        refine ⟨?_, ?_, ?_, ?_, ?_⟩
+        · intro x hx
+          simp only [List.mem_append, List.mem_singleton, List.length_set] at hx ⊢
+          rcases hx with hx | rfl
+          · exact h.connOk x hx
+          · exact hlen
+        · intro x hx
+          simp only [List.mem_append, List.mem_singleton] at hx ⊢
+          rcases hx with hx | rfl
+          · have := h.idLt x hx; omega
+          · simp
+        · intro i j si sj hi hj hij
+          simp only [List.getElem?_append] at hi hj
+          split at hi <;> split at hj
+          · exact h.idUniq _ _ _ _ hi hj hij
+          · have hm : si ∈ st.subs := List.mem_iff_getElem?.mpr ⟨i, hi⟩
+            have := h.idLt si hm
+            have hj' : sj.subId = st.nextId := by
+              cases hjj : j - st.subs.length with
+              | zero => simp [hjj] at hj; subst hj; rfl
+              | succ n => simp [hjj] at hj
+            omega
+          · have hm : sj ∈ st.subs := List.mem_iff_getElem?.mpr ⟨j, hj⟩
+            have := h.idLt sj hm
+            have hi' : si.subId = st.nextId := by
+              cases hii : i - st.subs.length with
+              | zero => simp [hii] at hi; subst hi; rfl
+              | succ n => simp [hii] at hi
+            omega
+          · have : i - st.subs.length = 0 := by
+              cases hii : i - st.subs.length with
+              | zero => rfl
+              | succ n => simp [hii] at hi
+            have : j - st.subs.length = 0 := by
+              cases hjj : j - st.subs.length with
+              | zero => rfl
+              | succ n => simp [hjj] at hj
+            omega
+        · intro x hx
+          simp only [List.mem_append, List.mem_singleton] at hx
+          rcases hx with hx | rfl
+          · exact h.subOk x hx
+          · constructor <;> simp
+        · intro c2 cn2 hc2
+          simp only [List.getElem?_set] at hc2
+          simp only [held, List.countP_append, List.countP_cons, List.countP_nil]
+          by_cases hcc : c = c2
+          · subst hcc
+            simp [hlen] at hc2
+            subst hc2
+            have := h.permit c cn hc
+            simp only [held] at this
+            simp [Sub.holds] at this ⊢
+            omega
+          · simp [hcc] at hc2
+            have := h.permit c2 cn2 hc2
+            simp only [held] at this
+            simp [hcc, Sub.holds] at this ⊢
+            omega
+
+theorem inv_unsubscribe {st : State} (h : Inv st) (c m x rid : Nat) :
+    Inv (doUnsubscribe st c m x rid).1 := by
+  unfold doUnsubscribe
+  split
+  · exact h
+  · rename_i cn hc
+    split
+    · exact h
+    · split
+      · exact h
+      · split
+        · exact inv_putConn h hc rfl rfl
+        · rename_i k hf
+          obtain ⟨s, hs, hp⟩ := findIdx_some hf
+          simp only [tableKey, Bool.and_eq_true, beq_iff_eq] at hp
+          obtain ⟨⟨⟨hsc, _⟩, _⟩, hit⟩ := hp
+          rw [hs]
+          have hl : lookup st k = some (s, cn) := by
+            simp [lookup, hs, hsc, hc]
+          have ok := h.subOk s (lookup_mem hl)
+          have hacc := (ok.table.mp hit).1
+          refine inv_put h hl rfl rfl ?_ rfl ?_
+          · refine ⟨?_, ok.clonesAcc, fun _ => hacc, ok.closeAcc, ok.orphAcc⟩
+            simp
+          · simp [Sub.holds, Conn.push]
+
+theorem inv_step {st : State} (h : Inv st) (op : Op) : Inv (step st op).1 := by
+  cases op with
+  | subscribe c m rid => exact inv_subscribe h c m rid
+  | accept k => exact inv_accept h k
+  | reject k code => exact inv_refuse h k code .rejected (by decide) (by decide)
+  | dropPending k => exact inv_refuse h k internalCode .dropped (by decide) (by decide)
+  | send k p => exact inv_send h k p
+  | cloneSink k => exact inv_clone h k
+  | dropSink k => exact inv_dropSink h k
+  | isClosed k =>
+    simp only [step, doIsClosed]
+    split
+    · exact h
+    · split <;> exact h
+  | handlerReturn k r => exact inv_return h k r
+  | taskStep k => exact inv_task h k
+  | unsubscribe c m x rid => exact inv_unsubscribe h c m x rid
+  | connClose c => exact inv_connClose h c
+  | stop => exact inv_stop h
+  | connFinish c => exact inv_connFinish h c
+  | writerStep c => exact inv_writer h c
+
+theorem run_inv {st : State} (h : Inv st) (ops : List Op) : Inv (run st ops) := by
+  induction ops generalizing st with
+  | nil => exact h
+  | cons op r ih => exact ih (inv_step h op)
+
+/-- a state reached from an initial configuration by any operation sequence -/
+def Reachable (st : State) : Prop := ∃ cfg ops, st = run (init cfg) ops
+
+theorem reachable_inv {st : State} (h : Reachable st) : Inv st := by
+  obtain ⟨cfg, ops, rfl⟩ := h
+  exact run_inv (inv_init cfg) ops
+
+theorem reachable_step {st : State} (h : Reachable st) (op : Op) : Reachable (step st op).1 := by
+  obtain ⟨cfg, ops, rfl⟩ := h
+  refine ⟨cfg, ops ++ [op], ?_⟩
+  have : ∀ (s : State) (l : List Op), run s (l ++ [op]) = (step (run s l) op).1 := by
+    intro s l
+    induction l generalizing s with
+    | nil => rfl
+    | cons o r ih => exact ih _
+  exact (this _ _).symm
 
 end Jrpc.SubServer
